@@ -25,12 +25,23 @@ The functions get the value of the data type as string and return the correct ob
 """
 
 from __future__ import absolute_import
+import re
 from decimal import Decimal, InvalidOperation
 from types import FunctionType
 
 from hl7apy import load_library, get_default_validation_level, get_default_version
 from hl7apy.exceptions import InvalidDataType
 from hl7apy.utils import get_date_info, get_datetime_info, get_timestamp_info
+
+try:
+    basestring = basestring
+except NameError:
+    basestring = str
+
+# HL7 numbers: an optional sign, digits and an optional decimal point (no blanks, exponent, NaN or Infinity)
+_NM_REGEX = re.compile(r'^[+-]?([0-9]+\.?[0-9]*|\.[0-9]+)\Z')
+# HL7 sequence ids: non-negative integers
+_SI_REGEX = re.compile(r'^\+?[0-9]+\Z')
 
 
 def datatype_factory(datatype, value, version=None, validation_level=None):
@@ -295,6 +306,9 @@ def numeric_factory(value, datatype_cls, validation_level=None):
     """
     if not value:
         return datatype_cls(validation_level=validation_level)
+    if isinstance(value, basestring) and not _NM_REGEX.match(value):
+        # Decimal() accepts also blanks, underscores, exponents and special values
+        raise ValueError('{0} is not an HL7 valid NM value'.format(value))
     try:
         return datatype_cls(Decimal(value), validation_level=validation_level)
     except InvalidOperation:
@@ -325,6 +339,9 @@ def sequence_id_factory(value, datatype_cls, validation_level=None):
     """
     if not value:
         return datatype_cls(validation_level=validation_level)
+    if isinstance(value, basestring) and not _SI_REGEX.match(value):
+        # int() accepts also blanks, underscores and negative numbers
+        raise ValueError('{0} is not an HL7 valid SI value'.format(value))
     try:
         return datatype_cls(int(value), validation_level=validation_level)
     except ValueError:
